@@ -1312,3 +1312,165 @@ mod tests {
         save_csv_tensor(sample, "/tmp/nuts-sample.csv").expect("saving data should succeed")
     }
 }
+
+/// Verification-only access to private pieces of the NUTS implementation.
+#[cfg(feature = "verif-hooks")]
+pub mod verif {
+    use super::*;
+
+    /// Adaptation state of a chain: `(m, n_discard, epsilon, epsilon_bar, h_bar, mu)`.
+    pub type AdaptState<T> = (usize, usize, T, T, T, T);
+
+    impl<T, B, GTarget> NUTSChain<T, B, GTarget>
+    where
+        T: Float + ElementConversion + Element + SampleUniform + FromPrimitive,
+        B: AutodiffBackend,
+        GTarget: GradientTarget<T, B> + std::marker::Sync,
+        StandardNormal: rand::distr::Distribution<T>,
+        StandardUniform: rand_distr::Distribution<T>,
+        rand_distr::Exp1: rand_distr::Distribution<T>,
+    {
+        /// Calls the private `init_chain` exactly as `run` does.
+        pub fn verif_init_chain(&mut self, n_collect: usize, n_discard: usize) {
+            let _ = self.init_chain(n_collect, n_discard);
+        }
+
+        /// Returns `(m, n_discard, epsilon, epsilon_bar, h_bar, mu)`.
+        pub fn verif_adapt_state(&self) -> AdaptState<T> {
+            (
+                self.m,
+                self.n_discard,
+                self.epsilon,
+                self.epsilon_bar,
+                self.h_bar,
+                self.mu,
+            )
+        }
+
+        /// Overrides the current step size (used to inject extreme step sizes).
+        pub fn verif_set_epsilon(&mut self, epsilon: T) {
+            self.epsilon = epsilon;
+        }
+
+        /// A copy of the chain's generator.
+        pub fn verif_rng(&self) -> SmallRng {
+            self.rng.clone()
+        }
+
+        /// Replaces the chain's generator.
+        pub fn verif_set_rng(&mut self, rng: SmallRng) {
+            self.rng = rng;
+        }
+    }
+
+    impl<T, B, GTarget> NUTS<T, B, GTarget>
+    where
+        T: Float + ElementConversion + Element + SampleUniform + FromPrimitive + Send,
+        B: AutodiffBackend + Send,
+        GTarget: GradientTarget<T, B> + Sync + Clone + Send,
+        StandardNormal: rand::distr::Distribution<T>,
+        StandardUniform: rand_distr::Distribution<T>,
+        rand_distr::Exp1: rand_distr::Distribution<T>,
+    {
+        /// Read access to the chains of the sampler.
+        pub fn verif_chains(&self) -> &Vec<NUTSChain<T, B, GTarget>> {
+            &self.chains
+        }
+
+        /// Write access to the chains of the sampler.
+        pub fn verif_chains_mut(&mut self) -> &mut Vec<NUTSChain<T, B, GTarget>> {
+            &mut self.chains
+        }
+    }
+
+    /// Wrapper around the private `build_tree`.
+    #[allow(clippy::too_many_arguments, clippy::type_complexity)]
+    pub fn verif_build_tree<B, T, GTarget>(
+        position: Tensor<B, 1>,
+        mom: Tensor<B, 1>,
+        grad: Tensor<B, 1>,
+        logu: T,
+        v: i8,
+        j: usize,
+        epsilon: T,
+        gradient_target: &GTarget,
+        joint_0: T,
+        rng: &mut SmallRng,
+    ) -> (
+        Tensor<B, 1>,
+        Tensor<B, 1>,
+        Tensor<B, 1>,
+        Tensor<B, 1>,
+        Tensor<B, 1>,
+        Tensor<B, 1>,
+        Tensor<B, 1>,
+        Tensor<B, 1>,
+        Tensor<B, 1>,
+        usize,
+        bool,
+        T,
+        usize,
+    )
+    where
+        T: Float + Element,
+        B: AutodiffBackend,
+        GTarget: GradientTarget<T, B> + Sync,
+    {
+        build_tree(
+            position,
+            mom,
+            grad,
+            logu,
+            v,
+            j,
+            epsilon,
+            gradient_target,
+            joint_0,
+            rng,
+        )
+    }
+
+    /// Wrapper around the private `leapfrog`.
+    #[allow(clippy::type_complexity)]
+    pub fn verif_leapfrog<B, T, GTarget>(
+        position: Tensor<B, 1>,
+        mom: Tensor<B, 1>,
+        grad: Tensor<B, 1>,
+        epsilon: T,
+        gradient_target: &GTarget,
+    ) -> (Tensor<B, 1>, Tensor<B, 1>, Tensor<B, 1>, Tensor<B, 1>)
+    where
+        T: Float + ElementConversion,
+        B: AutodiffBackend,
+        GTarget: GradientTarget<T, B>,
+    {
+        leapfrog(position, mom, grad, epsilon, gradient_target)
+    }
+
+    /// Wrapper around the private `stop_criterion`.
+    pub fn verif_stop_criterion<B>(
+        position_minus: Tensor<B, 1>,
+        position_plus: Tensor<B, 1>,
+        mom_minus: Tensor<B, 1>,
+        mom_plus: Tensor<B, 1>,
+    ) -> bool
+    where
+        B: AutodiffBackend,
+    {
+        stop_criterion(position_minus, position_plus, mom_minus, mom_plus)
+    }
+
+    /// Wrapper around the private `find_reasonable_epsilon`.
+    pub fn verif_find_reasonable_epsilon<B, T, GTarget>(
+        position: Tensor<B, 1>,
+        mom: Tensor<B, 1>,
+        gradient_target: &GTarget,
+    ) -> T
+    where
+        T: Float + Element,
+        B: AutodiffBackend,
+        GTarget: GradientTarget<T, B> + Sync,
+    {
+        find_reasonable_epsilon(position, mom, gradient_target)
+    }
+}
